@@ -35,6 +35,9 @@ func simpleProp(r *Rand) M {
 	}
 }
 
+// deepDocsPM: per-mille of generated specifications that carry a deeply nested definition (set by the workloads).
+var deepDocsPM = 30
+
 // GenSpec builds a mini specification. edits = number of rule-breaking edits applied (0 = valid by construction).
 func GenSpec(r *Rand, edits int) (M, []string) {
 	nd := r.Range(2, 4)
@@ -62,6 +65,21 @@ func GenSpec(r *Rand, edits int) (M, []string) {
 			d["required"] = []any{"id" + n}
 		}
 		defs[n] = d
+	}
+	if deepDocsPM > 0 && r.Chance(deepDocsPM) {
+		// a deeply nested definition (a chain of object properties, 33..70 levels, defaults and an example at the bottom):
+		// limits and counters on nesting depth are typically 32 or 64
+		depth := pick(r, []int{33, 40, 48, 70})
+		leaf := M{"type": "object", "properties": M{
+			"arr": M{"type": "array", "uniqueItems": true, "items": M{"type": "integer"}, "default": pick(r, []any{[]any{1, 2}, []any{1, 1}})},
+			"ex":  M{"type": "integer", "example": pick(r, []any{1, "notanint"})},
+		}}
+		cur := leaf
+		for i := 0; i < depth; i++ {
+			cur = M{"type": "object", "properties": M{"n": cur}}
+		}
+		defs["Deep"] = cur
+		names = append(names, "Deep")
 	}
 	refDef := func() M { return M{"$ref": "#/definitions/" + pick(r, names)} }
 
